@@ -94,6 +94,10 @@ class Poly:
     __repr__ = __str__
 
 
+# bare function / method name -> parameter names (without self), for names whose definitions all agree; filled by model.Repo
+SIGNATURES: Dict[str, List[str]] = {}
+
+
 class Env:
     """Definitions visible in one function body."""
 
@@ -286,6 +290,11 @@ def _ite(c: "Poly", a: "Poly", b: "Poly") -> "Poly":
         inner = cs[4:-1]
         if inner.count("(") == inner.count(")"):
             return _ite(Poly.atom(inner), b, a)
+    # `x != y` is the negation of `x == y`: one polarity (==) is kept, the branches are swapped
+    import re as _re
+    m_ = _re.fullmatch(r"\((.*) != (.*)\)", cs)
+    if m_ and m_.group(1).count("(") == m_.group(1).count(")") and m_.group(2).count("(") == m_.group(2).count(")") and " != " not in m_.group(1) + m_.group(2):
+        return _ite(Poly.atom("(%s == %s)" % (m_.group(1), m_.group(2))), b, a)
     sa, sb = str(a), str(b)
     if sa == sb:
         return a
@@ -442,7 +451,18 @@ def _sym(e: ast.AST, env: Env) -> Poly:
                 args.append("*" + str(_sym(a.value, env)))
             else:
                 args.append(str(_sym(a, env)))
-        for k in sorted(e.keywords, key=lambda k: k.arg or ""):
+        kws = list(e.keywords)
+        # keyword arguments of a repository function with a unique signature are put back into their positions: f(a, trial=t) == f(a, t)
+        bare = e.func.attr if isinstance(e.func, ast.Attribute) else (e.func.id if isinstance(e.func, ast.Name) else None)
+        sig = SIGNATURES.get(bare) if bare else None
+        if sig and kws and all(k.arg in sig for k in kws) and not any(isinstance(a, ast.Starred) for a in e.args):
+            slots = {sig.index(k.arg): k for k in kws}
+            npos = len(e.args)
+            if all(i in slots for i in range(npos, npos + len(slots))) and min(slots) >= npos:
+                for i in range(npos, npos + len(slots)):
+                    args.append(str(_sym(slots[i].value, env)))
+                kws = []
+        for k in sorted(kws, key=lambda k: k.arg or ""):
             args.append("%s=%s" % (k.arg, _sym(k.value, env)))
         return _atom("%s(%s)" % (f, ", ".join(args)))
     if isinstance(e, (ast.Tuple, ast.List)):
@@ -717,6 +737,30 @@ def _accumulator(st: ast.For, env: Env):
     also  acc.extend(E)  ->  the flattened comprehension, and  acc += [E]."""
     if st.orelse or not st.body:
         return None
+    # an inner accumulator  v = []; for T2 in YS: [if C:] v.append(E2)   is the per-iteration local  v = [E2 for T2 in YS if C]
+    body = list(st.body)
+    k = 0
+    while k + 1 < len(body):
+        a0, a1 = body[k], body[k + 1]
+        if isinstance(a0, ast.Assign) and len(a0.targets) == 1 and isinstance(a0.targets[0], ast.Name) and isinstance(a0.value, ast.List) and not a0.value.elts and \
+                isinstance(a1, ast.For) and not a1.orelse and len(a1.body) == 1:
+            v = a0.targets[0].id
+            x = a1.body[0]
+            cs = []
+            while isinstance(x, ast.If) and not x.orelse and len(x.body) == 1:
+                cs.append(x.test)
+                x = x.body[0]
+            if isinstance(x, ast.Expr) and isinstance(x.value, ast.Call) and isinstance(x.value.func, ast.Attribute) and x.value.func.attr == "append" and \
+                    isinstance(x.value.func.value, ast.Name) and x.value.func.value.id == v and len(x.value.args) == 1 and \
+                    not any(isinstance(n, ast.Name) and n.id == v for n in ast.walk(x.value.args[0])):
+                comp = ast.ListComp(elt=x.value.args[0], generators=[ast.comprehension(target=a1.target, iter=a1.iter, ifs=cs, is_async=0)])
+                body[k:k + 2] = [ast.Assign(targets=[ast.Name(id=v, ctx=ast.Store())], value=comp, lineno=a0.lineno, col_offset=a0.col_offset)]
+                continue
+        k += 1
+    if body != list(st.body):
+        import copy as _copy0
+        st = _copy0.copy(st)
+        st.body = body
     # leading per-iteration locals (NAME = EXPR) are substituted into the element
     pre = []
     for b in st.body[:-1]:
